@@ -25,6 +25,7 @@ const (
 	FCrash      = "node-crash"        // all connections of the peer's node are reset at once
 	FDialFail   = "dial-fail"
 	FEOFData    = "eof+data" // counted when a read returns data together with io.EOF
+	FCut        = "cut-at-byte" // the incoming stream ends (EOF or reset) after exactly N bytes were read
 	FFrag       = "frag"     // counted when a read returns less than was available and asked for
 	FStallWrite = "backpressure"
 )
@@ -143,7 +144,7 @@ func (nw *Network) fire(kind string) {
 	nw.mu.Lock()
 	nw.Fired[kind]++
 	switch kind {
-	case FReset, FClosePeer, FCloseLocal, FWriteErr, FCrash:
+	case FReset, FClosePeer, FCloseLocal, FWriteErr, FCrash, FCut:
 		if nw.FirstFault == 0 {
 			nw.FirstFault = seq
 		}
@@ -238,6 +239,10 @@ type half struct {
 	rclosed bool // reader closed: writer fails
 	reset   bool
 	stalled bool // the reading process does not take anything (harness controlled)
+	cutOn   bool
+	cutAt   int  // with cutOn: the reader gets exactly this many bytes in total, then the end of the stream
+	cutRst  bool // the end is a reset instead of a clean EOF
+	cutDone bool
 	wait    chan struct{}
 	wlock   zsync.Mutex
 	tap     []byte // every byte ever accepted
@@ -311,6 +316,19 @@ func (c *Conn) ReadMarks() []Mark {
 	h.mu.Lock()
 	defer h.mu.Unlock()
 	return append([]Mark(nil), h.rmarks...)
+}
+
+// CutIncomingAfter makes the stream towards this side end after exactly n
+// more bytes have been read by it: a clean EOF, or a reset. Whatever the peer
+// sent beyond that point is lost and the peer's side is aborted.
+func (c *Conn) CutIncomingAfter(n int, reset bool) {
+	h := c.rd
+	h.mu.Lock()
+	h.cutOn = true
+	h.cutAt = h.rdOff + n
+	h.cutRst = reset
+	h.broadcast()
+	h.mu.Unlock()
 }
 
 // StallReads makes this side stop taking data from the connection (a process
@@ -474,10 +492,36 @@ func (c *Conn) Read(p []byte) (int, error) {
 			h.mu.Unlock()
 			return 0, ErrReset
 		}
+		if h.cutOn && h.rdOff >= h.cutAt {
+			// the peer died after exactly cutAt bytes had got through
+			first := !h.cutDone
+			h.cutDone = true
+			h.buf = nil
+			rst := h.cutRst
+			h.mu.Unlock()
+			if first {
+				c.nw.fire(FCut)
+				zzsim.Event("incoming stream of pair=%d side=%d cut after %d bytes", c.pair, c.side, h.cutAt)
+				// the other direction dies with the peer
+				w := c.wr
+				w.mu.Lock()
+				w.reset = true
+				w.buf = nil
+				w.broadcast()
+				w.mu.Unlock()
+			}
+			if rst {
+				return 0, ErrReset
+			}
+			return 0, io.EOF
+		}
 		if len(h.buf) > 0 && len(p) > 0 && !h.stalled {
 			avail := len(h.buf)
 			if avail > len(p) {
 				avail = len(p)
+			}
+			if h.cutOn && h.rdOff+avail > h.cutAt {
+				avail = h.cutAt - h.rdOff
 			}
 			h.mu.Unlock()
 			n := c.readSize(avail)
